@@ -12,17 +12,19 @@ import (
 // kase is one execution: a source text, how it is run and under which limits.
 // It is self-contained: replay loads Pre+Src into a fresh runtime.
 type kase struct {
-	Space   string `json:"space"`
-	Idx     int64  `json:"idx"`
-	Mode    string `json:"mode"`              // load | read | readload | readload-accepted
-	Limits  string `json:"limits"`            // fuzz | sweep | none
-	Fn      string `json:"fn,omitempty"`      // the registered callable under test, if any
-	Stratum string `json:"stratum,omitempty"` // which enumeration stratum produced it
-	Pre     string `json:"pre,omitempty"`     // definitions evaluated before Src (same runtime)
-	Src     string `json:"src"`
-	B64     bool   `json:"b64,omitempty"`       // Src is base64 (the text is not valid UTF-8)
-	Stack   int    `json:"max_stack,omitempty"` // run in a reader-only worker with this goroutine stack ceiling (bytes)
-	MaxOut  int    `json:"max_out,omitempty"`   // bound on the bytes of output the case may produce (0 = unchecked)
+	Space   string   `json:"space"`
+	Idx     int64    `json:"idx"`
+	Mode    string   `json:"mode"`              // load | read | readload | readload-accepted
+	Limits  string   `json:"limits"`            // fuzz | sweep | none
+	Fn      string   `json:"fn,omitempty"`      // the registered callable under test, if any
+	Stratum string   `json:"stratum,omitempty"` // which enumeration stratum produced it
+	Pre     string   `json:"pre,omitempty"`     // definitions evaluated before Src (same runtime)
+	Mid     string   `json:"mid,omitempty"`     // history modes: the mutating step (its error is tolerated)
+	After   []string `json:"after,omitempty"`   // history modes: the reads that follow, each its own load
+	Src     string   `json:"src"`
+	B64     bool     `json:"b64,omitempty"`       // Src is base64 (the text is not valid UTF-8)
+	Stack   int      `json:"max_stack,omitempty"` // run in a reader-only worker with this goroutine stack ceiling (bytes)
+	MaxOut  int      `json:"max_out,omitempty"`   // bound on the bytes of output the case may produce (0 = unchecked)
 }
 
 func (k *kase) setSrc(b string) {
@@ -445,6 +447,7 @@ type auxData struct {
 	Vals  []string  `json:"vals,omitempty"`  // V1 / V2 expressions
 	Kinds []string  `json:"kinds,omitempty"` // result kind of each of Vals
 	Picks []genPick `json:"picks,omitempty"` // (generator, depth) pairs that produced a value
+	Muts  []mutator `json:"muts,omitempty"`  // callables found (by effect) to change an operand
 }
 
 func loadAux(path string) (auxData, error) {
@@ -604,6 +607,28 @@ func buildSpace(name string, thorough bool, aux auxData) (*space, error) {
 			k := kase{Space: name, Idx: i, Mode: "load", Limits: prof, Stratum: c.name + "/" + v.name, MaxOut: maxOutputBytes,
 				Pre: "(set 'd " + v.expr + ")", Src: strings.ReplaceAll(c.tmpl, "$V", v.expr)}
 			return k
+		}}, nil
+	case "hist-discover":
+		// every callable x every position holding a small container x small
+		// argument tuples, under a tight allocation limit: which calls change
+		// their operand (whether they answer a value or an error)?
+		p := discoverPlan()
+		return &space{Name: name, Size: p.size, Batch: 2048, Reuse: 64, Case: func(i int64) kase {
+			s, call := p.call(i)
+			return kase{Space: name, Idx: i, Mode: "mutprobe", Limits: "alloc4", Fn: s.fn.Q, Stratum: s.stratum, Pre: s.pre, Mid: call}
+		}}, nil
+	case "hist2":
+		// discovered mutator x argument tuples x container x limit profile x
+		// survival mode, followed by every reader
+		p := historyPlan(aux.Muts)
+		profs := histProfilesFor(thorough)
+		np, nm := int64(len(profs)), int64(len(histModes))
+		return &space{Name: name, Size: p.size * np * nm, Batch: 256, Reuse: 64, Case: func(i int64) kase {
+			prof := profs[i%np]
+			mode := histModes[(i/np)%nm]
+			s, call := p.call(i / (np * nm))
+			return kase{Space: name, Idx: i, Mode: "history", Limits: prof, Fn: s.fn.Q, Stratum: mode.name + "/" + s.stratum,
+				Pre: s.pre, Mid: strings.ReplaceAll(mode.tmpl, "$CALL", call), After: histReaders}
 		}}, nil
 	case "gen-value":
 		ds := depthsFor(thorough)
